@@ -109,6 +109,31 @@ def case_entry_points_header_elsewhere(ctx):
                 ctx.oblige("same_values_through_every_entry_point", core.eq(row[j], np2env.raw_elem(p, order[j]) * float(s2v[order[j]])), detail={"entry": entry, "j": j})
 
 
+def case_recompressed_then_reopened(ctx):
+    """history in one process: compress, open, decompress in place, compress again (another chunk table), open again:
+    the reader of the second compressed file reads the recording (nothing of the first header may be reused)"""
+    import spikeglx
+    F, raw = _install(True, False)
+    sr = ctx.call("open_bin", spikeglx.Reader, FakePath(BASE + ".bin"))
+    ctx.call("compress", lambda: sr.compress_file(keep_original=False, chunk_duration=0.02))
+    sc = ctx.call("open_cbin", spikeglx.Reader, FakePath(BASE + ".cbin"))
+    p = ctx.int("p", 0, NS - 1)
+
+    def check(rd, what):
+        row = ctx.call("read_" + what, lambda: rd[p, :])
+        s2v = rd.sample2volts
+        order = [int(v) for v in rd.raw_channel_order]
+        for j in range(NC):
+            ctx.oblige(what + "_reads_the_recording", core.eq(row[j], np2env.raw_elem(p, order[j]) * float(s2v[order[j]])), detail={"j": j})
+    check(sc, "first_compressed_file")
+    ctx.call("decompress", lambda: sc.decompress_file(keep_original=False))
+    sb = ctx.call("open_bin_again", spikeglx.Reader, FakePath(BASE + ".bin"))
+    ctx.call("compress_again", lambda: sb.compress_file(keep_original=False, chunk_duration=0.01))
+    sc2 = ctx.call("open_second_cbin", spikeglx.Reader, FakePath(BASE + ".cbin"))
+    ctx.oblige("second_compressed_file_opens_with_the_recordings_shape", and_(core.eq(sc2.shape[0], NS), sc2.shape[1] == NC), detail={"shape": str(sc2.shape)})
+    check(sc2, "second_compressed_file")
+
+
 def _final_state_ok(ctx, F, final_name, what):
     f = F.get(final_name)
     if f is None or not bool(f.exists):
@@ -292,7 +317,8 @@ def case_decompress_inplace_retry(ctx, fault):
 
 
 def cases(tier):
-    cs = [Case("entry_points", "case_entry_points", {}), Case("entry_points_header_elsewhere", "case_entry_points_header_elsewhere", {})]
+    cs = [Case("entry_points", "case_entry_points", {}), Case("entry_points_header_elsewhere", "case_entry_points_header_elsewhere", {}),
+          Case("recompressed_then_reopened", "case_recompressed_then_reopened", {})]
     for k in ([1, 2, 3] if tier == "quick" else [0, 1, 2, 3, 4, 5, 6]):
         cs.append(Case(f"inplace_retry_fault{k}", "case_decompress_inplace_retry", {"fault": k}))
     for k in [None] + bounds(tier)["faults"]:
@@ -340,6 +366,32 @@ def mk_cbin():
     mk_bin(); sr = spikeglx.Reader(d / 'x.imec0.ap.bin'); sr.compress_file(keep_original=False); sr.close()
 class Boom(BASE_EXC): pass
 '''.replace("BASE_EXC", "BaseException" if m.get("interrupted_by_a_signal") else "OSError")
+    if case == "recompressed_then_reopened":
+        return common + f"""
+mk_bin()
+ref = None
+bad = []
+def values(rd):
+    return data[:, rd.raw_channel_order].astype(np.float32) * rd.sample2volts[rd.raw_channel_order]
+try:
+    sr = spikeglx.Reader(d / 'x.imec0.ap.bin'); sr.compress_file(keep_original=False, chunk_duration=0.02, n_threads=1); sr.close()
+    sc = spikeglx.Reader(d / 'x.imec0.ap.cbin')
+    if not np.array_equal(sc[:, :], values(sc)): bad.append('first compressed file reads other values')
+    sc.decompress_file(keep_original=False); sc.close()
+    sb = spikeglx.Reader(d / 'x.imec0.ap.bin'); sb.compress_file(keep_original=False, chunk_duration=0.01, n_threads=1); sb.close()
+    sc2 = spikeglx.Reader(d / 'x.imec0.ap.cbin')
+    if sc2.shape != (ns, nc): bad.append(('shape', sc2.shape))
+    for sl in (slice(0, ns), slice(ns // 2, ns), slice(ns - 3, ns), slice(1, 5)):
+        try:
+            if not np.array_equal(sc2[sl, :], values(sc2)[sl]): bad.append(('second compressed file reads other values in', str(sl)))
+        except Exception as e:
+            bad.append(('read of the second compressed file raised', str(sl), repr(e)))
+except Exception as e:
+    bad.append(('raised', repr(e)))
+print(bad)
+if bad: reproduced(str(bad))
+not_reproduced()
+"""
     if case == "entry_points_header_elsewhere":
         return common + f"""
 import shutil
